@@ -216,6 +216,44 @@ func Main(args []string) {
 			Count:  a.n})
 	}
 
+	// 3b. the real command: `git-bug webui [--read-only]` as a process, over real HTTP
+	bin, err := buildGitBug()
+	if err != nil {
+		harness("%v", err)
+	}
+	webui, err := runWebUIPart(bin)
+	if err != nil {
+		harness("web UI command: %v", err)
+	}
+	var webuiInfo []any
+	webuiRequests := 0
+	for _, w := range webui {
+		webuiRequests += w.Refused + w.Done
+		webuiInfo = append(webuiInfo, map[string]any{"start": w.Case.name(), "serving": w.Started, "mutations_sent": w.Mutations, "refused": w.Refused, "carried_out": w.Done, "notes": w.Notes, "violations": len(w.Viol)})
+		seen := map[string]bool{}
+		for _, v := range w.Viol {
+			if seen[v.Sig] {
+				continue
+			}
+			seen[v.Sig] = true
+			n := 0
+			root := world.ScratchRoot()
+			for i := 0; i < 5; i++ {
+				if r, err := runWebUICase(bin, root, w.Case); err == nil {
+					for _, x := range r.Viol {
+						if x.Sig == v.Sig {
+							n++
+							break
+						}
+					}
+				}
+			}
+			os.RemoveAll(root)
+			rep.Report(evidence.Report{Oracle: v.Oracle, Sig: v.Sig, Detail: fmt.Sprintf("%s (reproduced %d/5; command output: %s)", v.Detail, n, w.Output),
+				Replay: map[string]any{"webui": w.Case, "reproduced_of_5": n}, Count: 1})
+		}
+	}
+
 	// 4. evidence
 	var samples []any
 	step := len(results)/6 + 1
@@ -243,6 +281,8 @@ func Main(args []string) {
 		"panics_recovered_by_server":   recoveredPanics,
 		"distinct_violation_signatures": len(sigOrder),
 		"harness_errors":               harnessErrs,
+		"webui_command_starts":         webuiInfo,
+		"webui_command_mutation_requests": webuiRequests,
 	}
 	ev := evidence.Evidence{PropertyID: "C17", Tier: tier, Seed: seed, Level: "exploration", Coverage: cov,
 		Assumptions: []string{
@@ -251,6 +291,7 @@ func Main(args []string) {
 			"'repository unchanged' is compared on: all refs and HEAD, the set of objects reachable from the refs, every file of the object store (so a stored but unreferenced blob counts), the persisted clock files, the answers of the live cache (ids, excerpts, loaded snapshots incl. staged operations, queries, identities, labels), the GraphQL read query, and the answers of the cache after a restart",
 			"what is recorded is read from the git objects by a reader written from the documented format, not by git-bug's entity reader",
 			"what a bug prefix or combined comment-id prefix denotes is decided by an independent resolution over the initial population (string prefix over all bug ids / all combined comment ids): exactly one match => that bug/comment is the target; none or several => the request must be refused and change nothing, with and without a user",
+"the real command part starts the git-bug binary built from the tree under test (`webui --no-open --port <free> [--read-only]`) on copies of the same world with {user identity configured, none configured, configured id missing locally} and talks real HTTP to it: introspection, the read query, one well-formed request per mutation, one upload; it is stopped with SIGTERM. A read-only web UI must serve in all three configurations and leave refs, objects, clocks, the local configuration and the cache answers unchanged; read-write with a configured user must carry out every request authored by that user; read-write without a usable user may refuse to start (its tidying of its own dangling git-bug.identity key is noted, not judged)",
 			"with a user, only requests whose prefix resolves uniquely, whose other arguments are valid catalogue values and that ask for an actual change must succeed; for other arguments the statement is silent and the oracle only requires: error => nothing changed, no error => append-only, authored by the user, one bug, returned bug = changed bug",
 		},
 		WallS: time.Since(start).Seconds(), Violations: rep.Viol, Known: rep.KnownSeen()}
@@ -292,13 +333,42 @@ func replayFile(path string) int {
 		Oracle string `json:"oracle"`
 		Sig    string `json:"sig"`
 		Replay struct {
-			Case Case `json:"case"`
-			Seed int  `json:"seed"`
+			Case  Case       `json:"case"`
+			Seed  int        `json:"seed"`
+			WebUI *WebUICase `json:"webui"`
 		} `json:"replay"`
 	}
 	if err := json.Unmarshal(b, &f); err != nil {
 		fmt.Fprintln(os.Stderr, err)
 		return 2
+	}
+	if f.Replay.WebUI != nil {
+		bin, err := buildGitBug()
+		if err != nil {
+			fmt.Fprintln(os.Stderr, "replay error:", err)
+			return 2
+		}
+		root := world.ScratchRoot()
+		defer os.RemoveAll(root)
+		r, err := runWebUICase(bin, root, *f.Replay.WebUI)
+		if err != nil {
+			fmt.Fprintln(os.Stderr, "replay error:", err)
+			return 2
+		}
+		fmt.Printf("  %s: serving=%v mutations=%v refused=%d carried-out=%d notes=%v\n  output: %s\n", r.Case.name(), r.Started, r.Mutations, r.Refused, r.Done, r.Notes, r.Output)
+		hit := false
+		for _, v := range r.Viol {
+			fmt.Printf("  violation %s|%s: %s\n", v.Oracle, v.Sig, strings.TrimSpace(v.Detail))
+			if v.Oracle == f.Oracle && v.Sig == f.Sig {
+				hit = true
+			}
+		}
+		if hit {
+			fmt.Println("reproduced")
+			return 1
+		}
+		fmt.Println("not reproduced")
+		return 0
 	}
 	os.Setenv("VERIF_SEED", fmt.Sprint(f.Replay.Seed))
 	rs, err := runCases([]Case{f.Replay.Case}, 1)
